@@ -1,0 +1,21 @@
+//go:build verif
+// +build verif
+
+package input
+
+import "github.com/streadway/amqp"
+
+// VerifMockConnector returns a connector that wires the given delivery channel
+// into an *Amqp without talking to a broker (verification harness only).
+func VerifMockConnector(delivery <-chan amqp.Delivery) func(a *Amqp) error {
+	return func(a *Amqp) error {
+		a.channel = verifNopCloser{}
+		a.conn = verifNopCloser{}
+		a.delivery = delivery
+		return nil
+	}
+}
+
+type verifNopCloser struct{}
+
+func (verifNopCloser) Close() error { return nil }
